@@ -48,6 +48,7 @@ Inductive obs :=
 | OBad.                                     (* never produced by the model *)
 
 Inductive status := Alive | Restarting | Terminating | Terminated.
+Definition not_alive (s : status) : bool := match s with Alive => false | _ => true end.
 Definition st_ge_terminating (s : status) : bool := match s with Terminating | Terminated => true | _ => false end.
 
 (* accident record: victim object, victim address, victim's own strategy *)
@@ -244,11 +245,12 @@ Definition new_actor (tok parent : ref) (r : nat) (inst : nat) : actor :=
   {| a_tok := tok; a_parent := parent; a_role := r; a_children := []; a_st := Alive; a_sysq := []; a_userq := [];
      a_inflight := None; a_susp := false; a_inst := inst; a_graceful := false; a_watchers := []; a_accidents := 0 |}.
 
-(* end of ActorOf: a parent that is terminating (it has already told its children to stop) or terminated stops the new
-   child at once — otherwise the termination in progress would wait for it for ever, or the child would outlive it *)
+(* end of ActorOf: a parent that is restarting or terminating (it has already told its children to stop) or terminated
+   stops the new child at once — otherwise the restart or termination in progress would wait for it for ever, or the
+   child would outlive it *)
 Definition stop_if_parent_gone (s : kstate) (u : nat) (self t : ref) : R :=
   match get s u with
-  | Some pa => if st_ge_terminating (a_st pa) then let '(s1, o1) := terminate s self t (a_graceful pa) in ok s1 o1 else ok s []
+  | Some pa => if not_alive (a_st pa) then let '(s1, o1) := terminate s self t (a_graceful pa) in ok s1 o1 else ok s []
   | None => ok s []
   end.
 
